@@ -262,10 +262,13 @@ class H11Protocol:
         await self.context.mark_request()
 
     async def _send_h11_event(self, event: H11SendableEvent) -> None:
+        # Once an event has been refused h11 cannot send anything
+        # further, only the refusal itself is raised (to the app).
+        errored = self.connection.our_state is h11.ERROR
         try:
             data = self.connection.send(event)
         except h11.LocalProtocolError:
-            if self.connection.their_state != h11.ERROR:
+            if self.connection.their_state != h11.ERROR and not errored:
                 raise
         else:
             await self.send(RawData(data=data))
